@@ -237,17 +237,24 @@ def reorder_glyphs(font: ttLib.TTFont, new_glyph_order: List[str]):
     # Cf. https://github.com/fonttools/fonttools/issues/2060
     require_fully_loaded(font)
 
+    # CFF keeps its own copy of the glyph order, which decides the order CharStrings
+    # are compiled in and the names a reader assigns to them. CharStrings is converted
+    # lazily and maps names to indices with the charset in force at that moment - for
+    # CFF2, which stores no charset, the font's glyph order at that moment: read it
+    # before renaming anything
+    cff_top_dicts = [
+        top_dict
+        for tag in ("CFF ", "CFF2")
+        if tag in font.keys()
+        for top_dict in font[tag].cff.topDictIndex
+    ]
+    for top_dict in cff_top_dicts:
+        top_dict.CharStrings
+
     font.setGlyphOrder(new_glyph_order)
 
-    # CFF keeps its own copy of the glyph order, which decides the order CharStrings
-    # are compiled in and the names a reader assigns to them
-    for tag in ("CFF ", "CFF2"):
-        if tag in font.keys():
-            for top_dict in font[tag].cff.topDictIndex:
-                # CharStrings is converted lazily and maps names to indices with the
-                # charset in force at that moment: read it before renaming
-                top_dict.CharStrings
-                top_dict.charset = list(new_glyph_order)
+    for top_dict in cff_top_dicts:
+        top_dict.charset = list(new_glyph_order)
 
     coverage_containers = {"GDEF", "GPOS", "GSUB", "MATH"}
     for tag in coverage_containers:
